@@ -1132,6 +1132,24 @@ func ruleProvSubject(c *Ctx, r *Rep) {
 				}
 			}
 			r.Check(ok, "yaml|"+fs.field, c.Pos(fs.st.Pos()), "decoded from <yaml>."+name+" only", strings.Join(o, ","))
+		case "IssuerUniqueId", "SubjectUniqueId":
+			// the whole BIT STRING from a helper applied to the like-named YAML string
+			if fs.whole {
+				continue // listed again field by field
+			}
+			o := pv.Contents(fs.val())
+			ok := false
+			for _, x := range o {
+				if strings.Contains(x, yaml+"."+fs.field) {
+					ok = true
+				}
+			}
+			for _, x := range o {
+				if strings.Contains(x, yaml+"."+otherUID(fs.field)) {
+					ok = false
+				}
+			}
+			r.Check(ok, "yaml|"+fs.field, c.Pos(fs.st.Pos()), "decoded from <yaml>."+fs.field+" only", strings.Join(o, ","))
 		case "IssuerUniqueId.BitLength", "SubjectUniqueId.BitLength":
 			// 8 * len(b) of the same bytes
 			ok := false
@@ -1145,6 +1163,35 @@ func ruleProvSubject(c *Ctx, r *Rep) {
 				}
 			}
 			r.Check(ok, "yaml|"+fs.field, c.Pos(fs.st.Pos()), "BitLength = len(bytes) * 8", fs.val().String())
+		}
+	}
+	requireObligations(r, c.FnPos(init), "subject|", "subject-stored|", "serial|", "unique-id|*|IssuerUniqueId", "unique-id|*|SubjectUniqueId",
+		"yaml|SerialNumber", "yaml|Subject", "yaml|Alias", "yaml|Issuer", "yaml|Profile", "=yaml|IssuerUniqueId OR =yaml|IssuerUniqueId.Bytes", "=yaml|SubjectUniqueId OR =yaml|SubjectUniqueId.Bytes")
+}
+
+// requireObligations: each of the named flows was found at all (a flow that is not there produces no obligation to fail).
+func requireObligations(r *Rep, pos string, subs ...string) {
+	for _, sub := range subs {
+		found := false
+		for _, alt := range strings.Split(sub, " OR ") {
+			pre, suf, wild := alt, "", false
+			if i := strings.Index(alt, "*"); i >= 0 {
+				pre, suf, wild = alt[:i], alt[i+1:], true
+			}
+			exact := strings.HasPrefix(alt, "=")
+			for _, o := range r.Obs {
+				switch {
+				case exact:
+					found = found || o.Key == alt[1:]
+				case wild:
+					found = found || strings.HasPrefix(o.Key, pre) && strings.HasSuffix(o.Key, suf)
+				default:
+					found = found || strings.Contains(o.Key, alt)
+				}
+			}
+		}
+		if !found {
+			r.Bad("present|"+sub, pos, "the flow exists ("+sub+")", "no such store found")
 		}
 	}
 }
@@ -1204,6 +1251,35 @@ func ruleProvManip(c *Ctx, r *Rep) {
 			}
 		}
 		r.Check(len(srcFields) == 1 && srcFields[wk], "yaml-key|"+fs.field, c.Pos(fs.st.Pos()), "filled from YAML key "+wk+" only", fmtSet(srcFields))
+		// applied exactly when the key is given: the store lies behind a presence test of that key's field (non-empty
+		// string, non-nil pointer), taken on the present side
+		{
+			present, how := false, "no presence test of the key on the way"
+			for _, g := range guardsOf(fs.st.Block()) {
+				var x ssa.Value
+				var absent, isTest bool
+				if v, empty, ok := emptyTestOf(g.Cond, g.Truth); ok {
+					x, absent, isTest = v, empty, true
+				} else if v, isNil, ok := nilTestOf(g.Cond, g.Truth); ok && !isErrorType(v.Type()) {
+					x, absent, isTest = v, isNil, true
+				}
+				if !isTest {
+					continue
+				}
+				for _, xo := range pv.Origins(x) {
+					for _, m := range reYaml.FindAllStringSubmatch(xo, -1) {
+						if jsonOf[m[1]] == wk {
+							if absent {
+								how = "behind the test that the key is absent"
+							} else {
+								present, how = true, "so"
+							}
+						}
+					}
+				}
+			}
+			r.Check(present, "yaml-when-given|"+fs.field, c.Pos(fs.st.Pos()), "applied behind a test that YAML key "+wk+" is given", how)
+		}
 		// kinds: OIDs through OidFromString, bytes through the raw reader with BitLength 8*len
 		joined := strings.Join(o, ",")
 		switch {
